@@ -36,6 +36,11 @@ pub struct Case {
     /// occurs once in the sequence as written; only the two strands of the locus read alike
     #[serde(default)]
     pub hairpin: Option<(u8, u8)>,
+    /// the second indel sits between near-copies of the first one's flanks: the k-1 bases before and behind it are
+    /// those of the first locus with one substitution each, at the same distance from the junction on either
+    /// side (a diverged duplicate of the locus; every (k-1)-mer still unique): (distance selector, base, base)
+    #[serde(default)]
+    pub paralog: Option<(u8, u8, u8)>,
 }
 
 fn case_strategy() -> BoxedStrategy<Case> {
@@ -51,8 +56,9 @@ fn case_strategy() -> BoxedStrategy<Case> {
         prop_oneof![2 => Just(None), 1 => (any::<u16>(), any::<u16>()).prop_map(Some)],
         prop::bool::weighted(0.3),
         prop_oneof![6 => Just(None), 1 => (any::<u8>(), any::<u8>()).prop_map(Some)],
+        prop_oneof![1 => Just(None), 1 => (any::<u8>(), 1u8..4, 1u8..4).prop_map(Some)],
     )
-        .prop_map(|(k, n_samples, material, lead, tail, indels, orient, threads, trunc, twin, hairpin)| Case { k, n_samples, material, lead, tail, indels, orient, threads, trunc, twin, hairpin })
+        .prop_map(|(k, n_samples, material, lead, tail, indels, orient, threads, trunc, twin, hairpin, paralog)| Case { k, n_samples, material, lead, tail, indels, orient, threads, trunc, twin, hairpin, paralog })
         .boxed()
 }
 
@@ -191,6 +197,30 @@ pub fn materialise(c: &Case) -> Result<Mat, String> {
         let seg = anc[p0..p0 + ln].to_vec();
         anc[p1..p1 + ln].copy_from_slice(&seg);
     }
+    if let (Some((dsel, b1, b2)), true) = (c.paralog, planned.len() >= 2 && !c.twin) {
+        let w = k - 1;
+        let (p0, l0, p1, l1) = (planned[0].0, planned[0].1, planned[1].0, planned[1].1);
+        // distance from the junction: 0 .. k-3 (the farthest base is left alone, see the precondition below)
+        let d = gen::idx(dsel as u16 * 257, w - 1);
+        let before: Vec<u8> = anc[p0 - w..p0].to_vec();
+        let after: Vec<u8> = anc[p0 + l0..p0 + l0 + w].to_vec();
+        anc[p1 - w..p1].copy_from_slice(&before);
+        anc[p1 + l1..p1 + l1 + w].copy_from_slice(&after);
+        // the substitution on either side: a transition (selector 1 or 2: A<->G, C<->T; the commonest kind in real
+        // genomes) or the transversion to the complementary base (selector 3)
+        let subst = |b: u8, r: u8| match (b, r) {
+            (b'A', 1 | 2) => b'G',
+            (b'G', 1 | 2) => b'A',
+            (b'C', 1 | 2) => b'T',
+            (b'T', 1 | 2) => b'C',
+            (b'A', _) => b'T',
+            (b'T', _) => b'A',
+            (b'C', _) => b'G',
+            _ => b'C',
+        };
+        anc[p1 - 1 - d] = subst(anc[p1 - 1 - d], b1);
+        anc[p1 + l1 + d] = subst(anc[p1 + l1 + d], b2);
+    }
     let mut indels = Vec::new();
     for (ii, (p, ln, carr)) in planned.iter().enumerate() {
         let mut cs: Vec<bool> = (0..c.n_samples).map(|j| carr[j % carr.len()]).collect();
@@ -313,6 +343,12 @@ fn strata_of(c: &Case, m: &Mat, i: usize) -> Vec<&'static str> {
     }
     if c.twin && m.indels.len() >= 2 && i < 2 {
         v.push("twin(same_sequence_and_carriers_at_two_loci)");
+    }
+    if c.paralog.is_some() && !c.twin && c.hairpin.is_none() && m.indels.len() >= 2 && i < 2 {
+        v.push("two_loci_with_near_copies_of_the_same_flanks");
+        if matches!(c.paralog, Some((_, 1 | 2, 1 | 2))) {
+            v.push("two_loci_with_near_copies_of_the_same_flanks(one_transition_on_either_side)");
+        }
     }
     // junction homology: by how many bases the deletion can be shifted without changing the result
     let mut right = 0;
@@ -481,6 +517,7 @@ fn check(c: &Case, ctx: &Ctx) -> Outcome {
             if m.trunc.is_some() { cl.push("sample_missing_at_an_indel"); }
             if c.twin && planted >= 2 && c.hairpin.is_none() { cl.push("twin_indels(same_sequence_same_carriers_two_loci)"); }
             if c.hairpin.is_some() { cl.push("self_complementary_indel_between_inverted_flanks"); }
+            if c.paralog.is_some() && !c.twin && c.hairpin.is_none() && planted >= 2 { cl.push("two_loci_with_near_copies_of_the_same_flanks"); }
             pass(found > 0, key_of(&(k, &m.fwd, c.threads)), cl)
         }
     }
@@ -522,10 +559,10 @@ fn post(rt: &mut Runtime) {
     }
 }
 
-const RULE: &str = "generated: ancestor (all insertions present) with unique (k-1)-mers on both strands, 1-3 indels of length 1..min(10,k-1) at least 4k apart and 2k from the ends, carrier sets non-empty and proper over 3-8 samples, in 30% of the multi-indel cases the second indel removes the same sequence from the same carriers as the first (two loci, two records expected), in a seventh of the cases a single indel of a sequence equal to its own reverse complement (AT, GATC, GAATTC, ...) between inverted flanks W..rc(W) with |W| >= k-1 (every (k-1)-mer still occurs once in each sequence as written; the two strands of that locus read alike), the union of all derived samples re-checked: a (k-1)-mer may recur only at the same ancestor coordinates (rejections counted), samples randomly reverse-complemented, k in {11,15,21,31}, threads 1-4; in a third of the cases one of >= 4 samples is truncated >= 2k before an indel (neither form present: must be genotyped '.', run with -m 0.4). Oracle per record: before+REF+after (or its reverse complement) occurs in exactly the samples genotyped 0, before+ALT+after in exactly those genotyped 1, '.' iff neither or both; the record matches one planted indel by length and carriers, none twice, none unmatched; aggregate recall >= 90% (checked when >= 200 planted), also within each stratum of >= 150 planted indels (twin pairs, self-complementary indels between inverted flanks, junction homology >= indel length, no junction homology, carried by exactly half of the samples, singleton carrier, length classes). Non-trivial: >= 1 indel reported.";
+const RULE: &str = "generated: ancestor (all insertions present) with unique (k-1)-mers on both strands, 1-3 indels of length 1..min(10,k-1) at least 4k apart and 2k from the ends, carrier sets non-empty and proper over 3-8 samples, in 30% of the multi-indel cases the second indel removes the same sequence from the same carriers as the first (two loci, two records expected), in a seventh of the cases a single indel of a sequence equal to its own reverse complement (AT, GATC, GAATTC, ...) between inverted flanks W..rc(W) with |W| >= k-1 (every (k-1)-mer still occurs once in each sequence as written; the two strands of that locus read alike), in half of the multi-indel cases without twins the k-1 bases before and behind the second indel are those of the first with one substitution each (a transition, or the transversion to the complementary base) at the same distance from the junction (a diverged duplicate of the locus), the union of all derived samples re-checked: a (k-1)-mer may recur only at the same ancestor coordinates (rejections counted), samples randomly reverse-complemented, k in {11,15,21,31}, threads 1-4; in a third of the cases one of >= 4 samples is truncated >= 2k before an indel (neither form present: must be genotyped '.', run with -m 0.4). Oracle per record: before+REF+after (or its reverse complement) occurs in exactly the samples genotyped 0, before+ALT+after in exactly those genotyped 1, '.' iff neither or both; the record matches one planted indel by length and carriers, none twice, none unmatched; aggregate recall >= 90% (checked when >= 200 planted), also within each stratum of >= 150 planted indels (twin pairs, self-complementary indels between inverted flanks, loci with near-copies of the same flanks and among them those with a transition on either side, junction homology >= indel length, no junction homology, carried by exactly half of the samples, singleton carrier, length classes). Non-trivial: >= 1 indel reported.";
 
 fn stages(tier: Tier) -> Vec<Box<dyn Stage>> {
-    vec![gen_stage_show("indels", RULE, tier.pick(1600, 20_000), 150, case_strategy, check, |c| match materialise(c) {
+    vec![gen_stage_show("indels", RULE, tier.pick(2400, 24_000), 150, case_strategy, check, |c| match materialise(c) {
         Ok(m) => json!({"k": c.k, "ancestor": lossy(&m.ancestor), "indels": m.indels.iter().map(|(p, l, cs)| json!({"pos": p, "len": l, "deleted_in": cs})).collect::<Vec<_>>()}),
         Err(e) => json!({"rejected": e}),
     })]
